@@ -41,22 +41,24 @@ CHECKS = {
              "accepts and writes exactly the Standard's record (800 lines; both instantiations are called directly on every "
              "run, the aggregator's buffer and offsets compared with the layout of the modelled fields); "
              "parser_no_base_partial - Model/ParseSpecial.lean transcribes the state machine parse_url_impl<ada::url>(input, nullptr) "
-             "for every scheme but file (tab/newline removal, trimming, prune_hash, SCHEME_START, SCHEME, "
+             "for every input (tab/newline removal, trimming, prune_hash, SCHEME_START, SCHEME, "
              "SPECIAL_AUTHORITY_SLASHES, SPECIAL_AUTHORITY_IGNORE_SLASHES, PATH_OR_AUTHORITY, the AUTHORITY loop over several "
              "'@', HOST with get_host_delimiter_location and parse_host, PORT with parse_port's trailing check, PATH_START, "
-             "PATH, OPAQUE_PATH, QUERY, fragment, fast path in front) and it answers exactly Spec.parse's record, failure for "
-             "failure and field for field (1200 lines), under the bracket side condition below; ada's perfect-hash "
+             "PATH, OPAQUE_PATH, FILE, FILE_SLASH, FILE_HOST, QUERY, fragment, fast path in front) and it answers exactly "
+             "Spec.parse's record, failure for failure and field for field, whatever the scheme (1450 lines), under the "
+             "bracket side condition below; ada's perfect-hash "
              "scheme lookup equals list lookup. L1: the state-machine model is run against ada::parse<ada::url> on generated "
              "inputs with the real IDNA answers as hints; the "
              "Lean path builder is run against the real function (and both shorten_path overloads against each other) on "
              "generated calls. Both URL types are compared with the Spec on generated (input, base) pairs: href, all getters, "
              "origin, opaque flag.",
         design_ref="DESIGN.md §5 C01, §11.3",
-        note="partial: parse_url_impl<ada::url> without a base is modelled and proved equal to Spec.parse for every scheme "
-             "but file, under one side condition (no '/', '?', '\\\\' between a '[' and the next ']' behind the credentials - there "
+        note="partial: parse_url_impl<ada::url> without a base is modelled and proved equal to Spec.parse for every input, "
+             "under one side condition (no '/', '?', '\\\\' between a '[' and the next ']' behind the credentials - there "
              "get_host_delimiter_location and the Standard's host state stop at different places and both fail later; "
-             "bracket_condition_plain: any input without '[' satisfies it) and with ada::idna::to_ascii as a parameter; the "
-             "file states, every input with a base and the url_aggregator instantiation of the state machine are compared "
+             "bracket_condition_plain: any input without '[' satisfies it; file URLs are free of it) and with "
+             "ada::idna::to_ascii as a parameter; "
+             "every input with a base and the url_aggregator instantiation of the state machine are compared "
              "with the Spec, not modelled (their building blocks - path builder, scheme lookup, fast path, can_parse "
              "scanner in C08, parse_host and the IP kernels in C10, the aggregator's editors in C07 - are). Spec.parse is a hand transcription of the Standard (trusted, validated by WPT). "
              "IDNA answers inside the Spec come from ada::idna (C06)."),
